@@ -693,13 +693,19 @@ func c09All(c *Check, P string, r *RouterRoles2) {
 			c.Report(okS && w.Dir == -1 && w.Full, P+".O2", "WRAP-DIRECTION/middlewares", L, w.Call.Pos(), "middleware wrap", "middlewares are wrapped in a full descending loop over the snapshot: the first registered ends up outermost")
 			// O3 filter
 			var routerLevel, ownName []Edge
-			rl, _ := BoolEdges(L, func(v ssa.Value) bool { f := LoadedField(firstOrigin(v)); return f != nil && f.Name() == "IsRouterLevel" })
+			rl, _ := BoolEdges(L, func(v ssa.Value) bool {
+				f := LoadedField(firstOrigin(v))
+				return f != nil && f.Name() == "IsRouterLevel"
+			})
 			routerLevel = rl
 			for _, t := range Tests(L) {
 				if t.Y == nil {
 					continue
 				}
-				isHN := func(v ssa.Value) bool { f := LoadedField(firstOrigin(v)); return f != nil && f.Name() == "HandlerName" && f.Exported() }
+				isHN := func(v ssa.Value) bool {
+					f := LoadedField(firstOrigin(v))
+					return f != nil && f.Name() == "HandlerName" && f.Exported()
+				}
 				isOwn := func(v ssa.Value) bool { return AllOrigins(v, IsFieldLoad(r.HName)) }
 				if (isHN(t.X) && isOwn(t.Y)) || (isHN(t.Y) && isOwn(t.X)) {
 					ownName = append(ownName, t.True)
@@ -711,7 +717,10 @@ func c09All(c *Check, P string, r *RouterRoles2) {
 				if !ok || bo.Op.String() != "==" {
 					return false
 				}
-				isHN := func(v ssa.Value) bool { f := LoadedField(firstOrigin(v)); return f != nil && f.Name() == "HandlerName" && f.Exported() }
+				isHN := func(v ssa.Value) bool {
+					f := LoadedField(firstOrigin(v))
+					return f != nil && f.Name() == "HandlerName" && f.Exported()
+				}
 				isOwn := func(v ssa.Value) bool { return AllOrigins(v, IsFieldLoad(r.HName)) }
 				return (isHN(bo.X) && isOwn(bo.Y)) || (isHN(bo.Y) && isOwn(bo.X))
 			})
@@ -773,7 +782,9 @@ func c09All(c *Check, P string, r *RouterRoles2) {
 			switch {
 			case AllOrigins(w.Slice, IsFieldLoad(pdF)):
 				c.Report(w.Dir == -1 && w.Full, P+".O2", "WRAP-DIRECTION/publisher-decorators", fn, w.Call.Pos(), "publisher decorator wrap", "publisher decorators are applied in a full descending loop: the first added is outermost and sees outgoing messages first")
-				c.Report(AllOrigins(w.Call.Common().Args[0], func(o ssa.Value) bool { return LoadedField(o) == r.HPub || o == CallValue(w.Call) || isExtractOf(o, w.Call) }), P+".O2", "WRAP-BASE/publisher", fn, w.Call.Pos(), "publisher decorator wrap", "the chain starts from the handler's own publisher")
+				c.Report(AllOrigins(w.Call.Common().Args[0], func(o ssa.Value) bool {
+					return LoadedField(o) == r.HPub || o == CallValue(w.Call) || isExtractOf(o, w.Call)
+				}), P+".O2", "WRAP-BASE/publisher", fn, w.Call.Pos(), "publisher decorator wrap", "the chain starts from the handler's own publisher")
 				c.Report(len(FieldStores(fn, r.HPub)) == 1, P+".O2", "WRAP-STORED/publisher", fn, w.Call.Pos(), "publisher decorator wrap", "the decorated publisher replaces the handler's publisher")
 				// whatever the handler's configuration: a successful return comes after the decoration
 				for _, st := range FieldStores(fn, r.HPub) {
@@ -902,7 +913,7 @@ func c10Lifecycle(c *Check, P string, r *RouterRoles2) {
 			}
 		}
 		for i, ret := range Returns(RH) {
-			for _, v := range Origins(ret.Results[0]) {
+			for _, v := range RetOrigins(ret, 0) {
 				if IsNilConst(v) {
 					c.Report(len(done) > 0 && GuardedBy(RH, ret, done), P+".O1", "NIL-AFTER-ALL", RH, ret.Pos(), fmt.Sprintf("return#%d", i), "RunHandlers returns nil only after the loop over all handlers ended")
 				}
@@ -913,7 +924,7 @@ func c10Lifecycle(c *Check, P string, r *RouterRoles2) {
 			ok := true
 			for _, ret := range Returns(RH) {
 				if re[ret] {
-					for _, v := range Origins(ret.Results[0]) {
+					for _, v := range RetOrigins(ret, 0) {
 						if IsNilConst(v) {
 							ok = false
 						}
@@ -953,7 +964,7 @@ func c10Lifecycle(c *Check, P string, r *RouterRoles2) {
 				c.Report(len(notRunning) > 0 && isEntryGuardReturn(RH, ret), P+".O1", "RUNHANDLERS-FAILS-ONLY-ON-START-FAILURE", RH, ret.Pos(), fmt.Sprintf("return#%d", i), "before its loop RunHandlers refuses only a router that is not running (not a cancelled context: Run would return an error instead of closing the router and returning nil)")
 				continue
 			}
-			os := Origins(ret.Results[0])
+			os := RetOrigins(ret, 0)
 			okErr := len(os) > 0 && allOf(os, func(v ssa.Value) bool { return IsNilConst(v) || Wraps(v, isSetupErr) })
 			c.Report(okErr, P+".O1", "RUNHANDLERS-FAILS-ONLY-ON-START-FAILURE", RH, ret.Pos(), fmt.Sprintf("return#%d", i), "inside the handler loop RunHandlers returns an error only when decorating or subscribing a handler failed (not because the context is done or the router is closing: Run would then return an error instead of nil and the router would never close itself)")
 		}
@@ -1026,7 +1037,10 @@ func c10Lifecycle(c *Check, P string, r *RouterRoles2) {
 		okT := false
 		if ok && e.Index == 1 {
 			if wc, isC := e.Tuple.(*ssa.Call); isC && CalleeName(wc) == nWithCancel {
-				okT = AllOrigins(Arg(sub, 0), func(o ssa.Value) bool { x, ok := o.(*ssa.Extract); return ok && x.Tuple == ssa.Value(wc) && x.Index == 0 })
+				okT = AllOrigins(Arg(sub, 0), func(o ssa.Value) bool {
+					x, ok := o.(*ssa.Extract)
+					return ok && x.Tuple == ssa.Value(wc) && x.Index == 0
+				})
 			}
 		}
 		c.Report(okT, P+".O4", "STOP-TARGET", RH, st.Pos(), "stop function", "Stop() cancels exactly the context this handler subscribed with (it ends that handler only)")
@@ -1159,7 +1173,7 @@ func c10Lifecycle(c *Check, P string, r *RouterRoles2) {
 			ok := true
 			for _, ret := range Returns(Run) {
 				if re[ret] {
-					for _, v := range Origins(ret.Results[0]) {
+					for _, v := range RetOrigins(ret, 0) {
 						if IsNilConst(v) {
 							ok = false
 						}
@@ -1207,7 +1221,7 @@ func c10Lifecycle(c *Check, P string, r *RouterRoles2) {
 					c.Report(!afterNoWait[ret], P+".O5", "RUN-NIL-AFTER-CLOSED", Run, ret.Pos(), k, "Run returns nil only after the router was closed")
 					continue
 				}
-				os := Origins(ret.Results[0])
+				os := RetOrigins(ret, 0)
 				okErr := len(os) > 0 && allOf(os, func(v ssa.Value) bool {
 					return Wraps(v, func(x ssa.Value) bool { return ResultOfAny(setup, 0)(x) })
 				})
